@@ -2,6 +2,7 @@
 import ast
 
 from ..core import astutil as A
+from ..core import match as M
 from ..core.model import dotted
 
 META = {
@@ -46,6 +47,22 @@ def hidden_sibling(fn, e):
     return False, None
 
 
+def under_root(path, rootvar):
+    """path is <root> or pjoin(<root>, ...), <root> = the local alias of the staging directory or self.tmp_write_path itself"""
+    r = path.args[0] if isinstance(path, ast.Call) and dotted(path.func) == "pjoin" and path.args else path
+    return (isinstance(r, ast.Name) and r.id == rootvar) or A.unparse(r) == "self.tmp_write_path"
+
+
+def raises_always(handler):
+    """the handler cannot complete normally: a bare `raise` at its top level, not preceded by another top-level exit"""
+    for st in handler.body:
+        if isinstance(st, ast.Raise):
+            return st.exc is None
+        if isinstance(st, (ast.Return, ast.Continue, ast.Break)):
+            return False
+    return False
+
+
 def run(ctx):
     P = ctx.program
     ctx.explanation = META["level"]
@@ -59,8 +76,10 @@ def run(ctx):
     ctx.check("R1", tmpd[0][0], hid, "staging-hidden", f"vdb install stages under a `{HIDDEN}*` name", "vdb install's staging directory name does not start with '.tmp.': a fresh listing sees the half-written entry", node=tmpd[0][1])
     ctx.check("R1", tmpd[0][0], tdir == idir and tdir is not None, "staging-sibling", "the staging directory is a sibling of the final one (rename is atomic)")
     ad = vi.methods["add_data"]
-    root = [v for t, v, _ in A.assignments(ad.node, "dirpath")]
-    ctx.check("R1", ad, len(root) == 1 and A.unparse(root[0]) == "self.tmp_write_path", "writes-rooted-at-staging", "add_data's write root is the staging directory")
+    # the local write root is found by its role (the alias of self.tmp_write_path), not by its spelling
+    root = M.find(ad.node, "$d = self.tmp_write_path")
+    rootvar = root[0]["d"] if len(root) == 1 else None
+    ctx.check("R1", ad, rootvar is not None and len(A.assignments(ad.node, rootvar)) == 1, "writes-rooted-at-staging", "add_data's write root is the staging directory")
     n = 0
     for c in A.calls(ad.node):
         d = dotted(c.func) or ""
@@ -77,7 +96,7 @@ def run(ctx):
             continue
         n += 1
         t = A.unparse(path)
-        ctx.check("R1", ad, t == "dirpath" or t.startswith("pjoin(dirpath, "), f"write-under-staging:{t[:40]}", f"`{t[:50]}` is under the staging directory",
+        ctx.check("R1", ad, under_root(path, rootvar), f"write-under-staging:{t[:40]}", f"`{t[:50]}` is under the staging directory",
                   f"vdb install.add_data writes `{t}` outside the hidden staging directory: a crash leaves it visible", node=c)
     ctx.check("R1", ad, n >= 7, f"write-sites:{n}", f"{n} file creations in add_data inspected")
     fi = vi.methods["finalize_data"]
@@ -169,15 +188,22 @@ def run(ctx):
     # ---- R5 binpkg ----------------------------------------------------------------------------------------------------------------
     bi = P.cls(B, "install")
     ad = bi.methods["add_data"]
-    tp = [v for t, v, _ in A.assignments(ad.node, "tmp_path")]
+    # the staged file is the local the tarball is written to; the final path is the local published as self.final_path
+    tw = M.one(ad.node, "tar.write_set($_, $tmp, ...)")
+    ctx.require(tw is not None, "binpkg install.add_data: tarball write to a local staging path not found")
+    tmpv = tw["tmp"]
+    tp = [v for t, v, _ in A.assignments(ad.node, tmpv)]
     ctx.require(len(tp) == 1, "binpkg install.add_data: tmp_path not found")
     e = tp[0]
-    ok = dotted(e.func) == "pjoin" and A.unparse(e.args[0]) == "os.path.dirname(final_path)" and (A.fstring_prefix(e.args[1]) or "").startswith(HIDDEN) and "os.path.basename(final_path)" in A.unparse(e.args[1])
+    sm = M.pat("pjoin(os.path.dirname($final), $$name)").matches(e)
+    ok = sm is not None and (A.fstring_prefix(sm["$name"]) or "").startswith(HIDDEN) and M.has(sm["$name"], "os.path.basename($final)", {"final": sm["final"]})
+    pubs = {a: [A.unparse(v) for _, v in attr_defs(P, B, "install", a)] for a in ("tmp_path", "final_path")}
+    ok = ok and pubs["tmp_path"] == [tmpv] and pubs["final_path"] == [sm["final"]]
     ctx.check("R5", ad, ok, "binpkg-staging", "the tarball is staged as a hidden sibling of the final path", f"binpkg staging path is `{A.unparse(e)}`", node=e)
     ws = [c for c in A.calls(ad.node) if dotted(c.func) in ("tar.write_set", "xpak.Xpak.write_xpak", "os.chmod")]
-    ctx.check("R5", ad, len(ws) == 3 and all(A.unparse(c.args[1] if dotted(c.func) == "tar.write_set" else c.args[0]) == "tmp_path" for c in ws), "binpkg-writes-staged", "tarball, xpak and chmod all operate on the staged file")
+    ctx.check("R5", ad, len(ws) == 3 and all(A.unparse(c.args[1] if dotted(c.func) == "tar.write_set" else c.args[0]) == tmpv for c in ws), "binpkg-writes-staged", "tarball, xpak and chmod all operate on the staged file")
     hs = [h for n_ in A.body_walk(ad.node) if isinstance(n_, ast.Try) for h in n_.handlers]
-    ctx.check("R5", ad, any("unlink_if_exists(tmp_path)" in A.unparse(h) and isinstance(h.body[-1], ast.Raise) for h in hs), "binpkg-failure-cleans", "a failed build removes the staged file and re-raises")
+    ctx.check("R5", ad, any(M.has(h.body, "unlink_if_exists($tmp)", {"tmp": tmpv}) and raises_always(h) for h in hs), "binpkg-failure-cleans", "a failed build removes the staged file and re-raises")
     fi = bi.methods["finalize_data"]
     rn = [c for c in A.calls(fi.node) if dotted(c.func) == "os.rename"]
     ctx.check("R5", fi, len(rn) == 1 and A.unparse(rn[0].args[0]) == "self.tmp_path" and A.unparse(rn[0].args[1]) == "self.final_path", "binpkg-publish-by-rename", "published by one rename")
